@@ -89,7 +89,8 @@ def base_sample(rng, cls):
     ranking = ["low", "mid", "high", "top"]
     codes = rng.choice(4, n, p=[0.3, 0.3, 0.25, 0.15])
     ordv = np.array([ranking[k] for k in codes], dtype=object)
-    X = pd.DataFrame({"q": q, "q2": q2, "c": cat, "o": ordv})
+    q3 = rng.integers(0, 12, n).astype(np.int64)  # integer dtype, no missing value
+    X = pd.DataFrame({"q": q, "q2": q2, "q3": q3, "c": cat, "o": ordv})
     s = q + codes * 0.7 + rng.normal(0, 1, n)
     if kind == "binary":
         y = (s > np.median(s)).astype(int)
@@ -112,7 +113,7 @@ def build(cls, ranking, overrides=None):
     from AutoCarver.discretizers.utils.qualitative_discretizers import CategoricalDiscretizer, ChainedDiscretizer, OrdinalDiscretizer
     from AutoCarver.discretizers.utils.quantitative_discretizers import ContinuousDiscretizer
     o = overrides or {}
-    quant = o.get("quant", ["q", "q2"])
+    quant = o.get("quant", ["q", "q2", "q3"])
     qual = o.get("qual", ["c"])
     ordinal = o.get("ordinal", ["o"])
     vo = {"o": list(ranking)}
@@ -143,8 +144,8 @@ def build(cls, ranking, overrides=None):
 
 
 def features_of(cls):
-    return {"QuantitativeDiscretizer": ["q", "q2"], "ContinuousDiscretizer": ["q", "q2"], "QualitativeDiscretizer": ["c", "o"], "OrdinalDiscretizer": ["o"],
-            "CategoricalDiscretizer": ["c"], "ChainedDiscretizer": ["c"]}.get(cls, ["q", "q2", "c", "o"])
+    return {"QuantitativeDiscretizer": ["q", "q2", "q3"], "ContinuousDiscretizer": ["q", "q2", "q3"], "QualitativeDiscretizer": ["c", "o"], "OrdinalDiscretizer": ["o"],
+            "CategoricalDiscretizer": ["c"], "ChainedDiscretizer": ["c"]}.get(cls, ["q", "q2", "q3", "c", "o"])
 
 
 def do_fit(obj, cls, X, y, Xd=None, yd=None):
@@ -227,7 +228,7 @@ def inject(rng, defect, cls, X, y, Xd, yd, kind):
         r["Xd"] = Xd.drop(columns=[drop])
         r["use_dev"] = True
     elif defect == "feature_both_types":
-        r["ctor"] = {"quant": ["q", "q2", "c"], "qual": ["c"]} if rng.random() < 0.5 else {"quant": ["q", "q2", "o"], "ordinal": ["o"]}
+        r["ctor"] = {"quant": ["q", "q2", "q3", "c"], "qual": ["c"]} if rng.random() < 0.5 else {"quant": ["q", "q2", "q3", "o"], "ordinal": ["o"]}
         r["via"] = "ctor_or_fit"
     elif defect == "string_in_quantitative":
         col = gen.pick(rng, [f for f in feats if f.startswith("q")])
